@@ -24,13 +24,13 @@ def tla_seq(x):
     return f'"{x}"'
 
 
-def exec_mc(name, scripts, maxc, mins, tolc, tolp, invs, props=(), spec="Spec", fixes=None):
+def exec_mc(name, scripts, maxc, mins, tolc, tolp, invs, props=(), spec="Spec", fixes=None, tfail=False, reset_first=True):
     fixes = fixes or (VARIANT.get("FixOrphanParent", False), VARIANT.get("FixBteBranch", False), VARIANT.get("FixEmpty", False))
     wd = work_dir(name)
     mod = f"MC_{name}"
     with open(os.path.join(wd, mod + ".tla"), "w") as f:
         f.write(f"---- MODULE {mod} ----\nEXTENDS Executor\n"
-                f"CfDef == [script |-> {tla_seq(scripts)}, maxc |-> {maxc}, mins |-> {mins}, tolc |-> {tolc}, tolp |-> {tolp}]\n"
+                f"CfDef == [script |-> {tla_seq(scripts)}, maxc |-> {maxc}, mins |-> {mins}, tolc |-> {tolc}, tolp |-> {tolp}, tfail |-> {'TRUE' if tfail else 'FALSE'}]\n"
                 f"MCInit == cf = CfDef /\\ Init\n"
                 f"MCSpec == MCInit /\\ [][NextC]_<<vars, cf>>\n"
                 f"MCFairSpec == MCSpec /\\ WF_vars(MainStep)"
@@ -38,7 +38,7 @@ def exec_mc(name, scripts, maxc, mins, tolc, tolp, invs, props=(), spec="Spec", 
                 f"====\n")
     cfg = [f"SPECIFICATION MC{spec}", "CONSTANTS",
            f"  FixOrphanParent = {'TRUE' if fixes[0] else 'FALSE'}", f"  FixBteBranch = {'TRUE' if fixes[1] else 'FALSE'}",
-           f"  FixEmpty = {'TRUE' if fixes[2] else 'FALSE'}"]
+           f"  FixEmpty = {'TRUE' if fixes[2] else 'FALSE'}", f"  ResetFirst = {'TRUE' if reset_first else 'FALSE'}"]
     cfg += [f"INVARIANT {i}" for i in invs] + [f"PROPERTY {p}" for p in props] + ["CHECK_DEADLOCK FALSE"]
     with open(os.path.join(wd, mod + ".cfg"), "w") as f:
         f.write("\n".join(cfg) + "\n")
@@ -47,11 +47,11 @@ def exec_mc(name, scripts, maxc, mins, tolc, tolp, invs, props=(), spec="Spec", 
 
 STRICT = {"C09": ["ConcurrencyBound", "ReturnsOnlyWhenDecided", "ItemsFaithful", "ReasonConsistent"],
           "C10": ["NoDescendantAfterParentDone", "NoKnownOpAfterParentDone"],
-          "C07": ["SuspendSound", "NoHang"],
+          "C07": ["SuspendSound", "SuspendNotWhileResuming", "NoHang"],
           "C06": ["NoHang"]}
 
 
-def executor_sweep(ctx, invs, *, tag, scripts_sets=None, configs=None, liveness=False, budget=None):
+def executor_sweep(ctx, invs, *, tag, scripts_sets=None, configs=None, liveness=False, budget=None, tfail=False):
     """TLC over a family of (scripts, max_concurrency, completion config)."""
     scripts_sets = scripts_sets or [
         [["step", "ok"], ["step", "step", "ok"], ["fail"]],
@@ -71,11 +71,11 @@ def executor_sweep(ctx, invs, *, tag, scripts_sets=None, configs=None, liveness=
                 continue
             name = f"{tag}_{si}_{ci}"
             mod, cfg = exec_mc(name, scripts, maxc, mins, tolc, tolp, invs,
-                               props=(["EventuallyReturns"] if liveness else []), spec="FairSpec" if liveness else "Spec")
+                               props=(["EventuallyReturns"] if liveness else []), spec="FairSpec" if liveness else "Spec", tfail=tfail)
             res = run_tlc(mod, cfg, name, timeout_s=900)
             require_ok(res, f"Executor.tla {name}")
             ctx.add_tlc(res, f"Executor.tla exhaustive: scripts={scripts} maxc={maxc or None} min={mins or None} "
-                             f"tolc={None if tolc == NONEC else tolc} tolp={None if tolp == NONEP else tolp}", exhaustive=True)
+                             f"tolc={None if tolc == NONEC else tolc} tolp={None if tolp == NONEP else tolp}" + (" refresh-may-fail" if tfail else ""), exhaustive=True)
             if not res.ok:
                 ctx.violation(f"model-{res.violated}", f"TLC: {res.violated} violated (scripts={scripts}, cfg={(maxc, mins, tolc, tolp)})",
                               {"kind": "tlc", "trace": [(a.split(' line')[0], s[:900]) for a, s in res.trace[-8:]]})
@@ -159,6 +159,10 @@ CURATED_CONC = {
     "m14_park_then_fail": {"nodes": [{"k": "map", "caught": True, "braise": [1], "branches": [[{"k": "wait", "s": 3600}], [{"k": "step", "dur": 0.3}]]}]},
     "m15_timed_and_indef": {"nodes": [{"k": "par", "branches": [[{"k": "wait", "s": 1}, {"k": "step"}], [{"k": "cb", "between": []}],
                                                               [{"k": "step", "fail": 1, "max": 2, "dur": 0.3}]]}]},
+    # the call's own context FAILs (its BatchResult cannot be serialized) after an early completion: the straggler is orphaned
+    "m16_ctx_fails_with_straggler": {"nodes": [{"k": "par", "caught": True, "bad_serdes": True, "cfg": {"min": 1},
+                                                "branches": [[{"k": "step"}], [{"k": "step", "dur": 0.6}, {"k": "step"}, {"k": "step"}]]},
+                                               {"k": "step", "dur": 1.5}, {"k": "step"}]},
     "m11_tolerance": {"nodes": [{"k": "map", "caught": True, "cfg": {"tolc": 1}, "braise": [0, 2], "branches": [[], [{"k": "step", "dur": 0.3}], [], [{"k": "step"}]]}]},
 }
 
